@@ -203,6 +203,11 @@ def gen_batch(rng, nstructs=14, can=False, granular_share=0.0, big=False):
         d.structs.append(("SN", [("a", 1, ("dyn", ("arr", ("enum", "N0"), 2))), ("b", 0, ("opt", ("arr", ("enum", "N0"), 2))),
                                  ("c", 2, ("u", 8))]))
     d.extra = "\n".join(extra) + "\n"
+    if rng.random() < 0.6:
+        # texts outside ASCII in the schema itself (a unit, a binding's extension value): they travel through the reflection
+        # record, so the run-time codec must still find every declaration behind them
+        d.extra += 'struct UniText {\n    t @ 0: u8 | unit("\u00b0C"),\n    w @ 1: u16 | unit("\u03bc\u03a9\U0001f600"),\n}\n' \
+                   'impl uart for UniText {\n    note: "\u20ac/h",\n}\n'
     return d
 
 
@@ -242,7 +247,7 @@ def from_json(d, t, j, dynamic=False):
     if k == "f64":
         return gen.f2w64(float(j))
     if k == "str":
-        return {"s": [ord(c) for c in j]}
+        return {"s": gen.text_bytes(j)}
     if k == "struct":
         if not isinstance(j, dict):
             raise TypeError("expected object")
@@ -721,6 +726,8 @@ def exercise_can(rep, rng, d, g, build, jobs, model):
         # an altered frame may match another binding: its data is then foreign; it is a meaningful input only if it
         # is an encoding of a value of that binding (enum fields holding enumerators) — otherwise outside the property
         def foreign_ok(lf):
+            if "undecodable_for" in lf:
+                return False  # matches a binding, but the data is no encoding of a value of it (e.g. announces more than 8 bytes)
             if "none" in lf:
                 return True
             for (fn, fid, t), v in zip(d.sorted_fields(lf["name"]), lf["value"]):
